@@ -184,7 +184,7 @@ void checkMates(const sess::History& h, const uci::Model& m, vf::Result& res) {
 
 void runC04(const Scenario& sc, vf::Result& res) {
     sess::History h;
-    sess::runSession(sc, h, res);
+    harness_session_run(&sc, &h, &res);
     uci::Model m;
     uci::buildModel(h, m);
     uci::checkContract(h, m, res);
